@@ -23,6 +23,9 @@ import copy
 from .astutil import chain, stmts, names_loaded
 
 # private helpers that exist on the pinned tree: rules anchor on them, they are never inlined
+# nested functions that exist on the pinned tree (anchors of rules): never inlined
+PINNED_NESTED = {'prime', 'double', 'doubleprime', '_make_set', 'itersection', 'iterlines', 'get_prop'}
+
 PINNED_PRIVATE = {
     '_fromargs', '_pair_with', '_lattice', '_neighbors', '_minimal', '_minimize', '_make_set', '_fromlist', '_init',
     '_annotate', '_make_mapping', '_tolist', '_eq', '_longlex', '_shortlex', '_call_json', '_get_fileobj', '_from_pair',
@@ -210,6 +213,13 @@ def resolve_helper(model, func, call):
     bound_self = None
     if isinstance(f, ast.Name):
         name = f.id
+        # a *new* nested helper of an enclosing function (a sibling closure)
+        cur = func
+        while cur is not None:
+            for holder in (cur, cur.parent):
+                if holder is not None and name in holder.nested and name not in PINNED_NESTED and holder.nested[name] is not func:
+                    return holder.nested[name], None
+            cur = cur.parent
     elif isinstance(f, ast.Attribute) and isinstance(f.value, ast.Name) and func.params and f.value.id in (func.params[0], 'cls', 'self'):
         name, bound_self = f.attr, f.value
     if not name or not name.startswith('_') or name.startswith('__') or name in PINNED_PRIVATE:
